@@ -196,6 +196,7 @@ def main():
                 r.attempt(req, rnd.randint(1, 2))
             elif ch == 's':
                 r.pump(0.15)
+                r.books()
         ev = r.run_to_end()
         # connections still held by idle clients are closed when the pool is torn down: not part of the run
         stats['executions'] += 1
